@@ -106,6 +106,9 @@ func invalidCorpus() []CorpusReq {
 		{"min-negative", M{"coefficient": 0.5, "minValue": -0.1, "maxValue": 1.0}}, {"max-above-one", M{"coefficient": 0.5, "minValue": 0.0, "maxValue": 1.5}}} {
 		add("aspect-ideal-"+bad.n, set(set(ae, "idealAdditiveCoefficient", "methodParameters", "function"), bad.p, "methodParameters", "params"))
 	}
+	one := set(ae, L{"a"}, "choseToMake")
+	add("aspect-ideal-coefficient-out-of-range-single-alternative", set(set(one, "idealAdditiveCoefficient", "methodParameters", "function"), M{"coefficient": 1.5, "minValue": 0.0, "maxValue": 1.0}, "methodParameters", "params"))
+	add("aspect-ideal-min-negative-single-alternative", set(set(one, "idealMultipliedCoefficient", "methodParameters", "function"), M{"coefficient": 0.5, "minValue": -0.5, "maxValue": 1.0}, "methodParameters", "params"))
 	sa := rootRequest("satisfactionHeuristic", true, false)
 	add("satisfaction-no-function", set(sa, deleteKey{}, "methodParameters", "function"))
 	add("satisfaction-unknown-function", set(sa, "idealAdditiveCoefficient", "methodParameters", "function"))
@@ -143,6 +146,12 @@ func invalidCorpus() []CorpusReq {
 	add("anchoring-unknown-applier", b1("anchoring", asM(set(M(an), "outline", "applier", "function"))))
 	add("anchoring-applier-scaling-zero", b1("anchoring", asM(set(M(an), 0.0, "applier", "params", "allowedValuesRangeScaling"))))
 	add("bias-entry-not-an-object", set(ws, L{"fatigue"}, "biases"))
+	// six considered alternatives, one of them with a value for an undeclared criterion (OWA / Choquet count the values)
+	for _, m := range []string{"owa", "choquetIntegral"} {
+		b6 := bigRequest(m)
+		b6["choseToMake"] = L{"a", "b", "c", "d", "e", "f"}
+		add(m+"-alternative-with-undeclared-value-six-considered", set(b6, 3.0, "knownAlternatives", 4, "criteria", "note"))
+	}
 	for i := range out {
 		out[i].Name = fmt.Sprintf("%s", out[i].Name)
 	}
